@@ -216,6 +216,14 @@ func pruneHashKeyedUpto(
 			return 0, err
 		}
 
+		// The block's commitments record is what marks it as retained (see
+		// [OldestRetainedBlock]); drop it in the same batch as the block's history, so that
+		// after a crash or a failed write between two batches the retention floor seeded from
+		// the database never admits a block whose history is already gone.
+		if err := core.DeleteBlockCommitment(batch, blockNum); err != nil {
+			return 0, err
+		}
+
 		if batch.Size() >= targetBatchByteSize {
 			if err := batch.Write(); err != nil {
 				return 0, err
